@@ -249,7 +249,22 @@ func (vc *VC) finish(top *Frame) {
 	var edges []Edge
 	var conds []string
 	for _, r := range top.rets {
-		edges = append(edges, Edge{pc: r.pc, st: r.st})
+		// per path, before merging: bring linked arrays up to date and give the regions of this path's local arrays their
+		// entry contents back. (Doing this after the merge would also wipe, on the other paths, whatever a callee
+		// allocated there under the same region number.)
+		rst := r.st.clone()
+		var robjs []*Obj
+		for o := range rst.objs {
+			robjs = append(robjs, o)
+		}
+		sort.Slice(robjs, func(i, j int) bool { return robjs[i].id < robjs[j].id })
+		for _, o := range robjs {
+			if rst.objs[o].T != "" {
+				vc.syncOut(rst, o)
+			}
+		}
+		vc.restoreLinks(rst)
+		edges = append(edges, Edge{pc: r.pc, st: rst})
 		conds = append(conds, r.pc)
 	}
 	st := top.mergeStates(edges, fn.Pos())
